@@ -92,6 +92,19 @@ class Transport:
         return self._call("post", url, **kw)
 
 
+class PollRunaway(BaseException):
+    """a polling loop slept far more often than there are replies to wait for: it will never return (reported as a finding, not a hang)"""
+
+
+_sleeps = {"n": 0, "limit": 10 ** 9}
+
+
+def _count_sleep():
+    _sleeps["n"] += 1
+    if _sleeps["n"] > _sleeps["limit"]:
+        raise PollRunaway()
+
+
 class FakeTime:
     def __init__(self):
         self.now = 0.0
@@ -100,16 +113,20 @@ class FakeTime:
         return self.now
 
     def sleep(self, d):
+        _count_sleep()
         self.now += max(d, 0)
 
 
 class FakeAsyncio:
     @staticmethod
     async def sleep(d):
+        _count_sleep()
         return None
 
 
 def kind_of(e):
+    if isinstance(e, PollRunaway):
+        return "Runaway"
     if isinstance(e, ScriptExhausted):
         return "Exhausted"
     if isinstance(e, ValueError):
@@ -164,6 +181,7 @@ def impl_http(case):
 
 
 def impl_exp(case):
+    _sleeps.update(n=0, limit=2 * len(case["outcomes"]) + 50)       # between two sleeps of a polling loop one reply is consumed
     qib, nw, wexp = _ctx["qib"], _ctx["networking"], _ctx["wexp"]
     tr = Transport([tuple(o) if isinstance(o, list) else o for o in case["outcomes"]])
     old = (nw.requests, wexp.time, wexp.asyncio)
@@ -213,6 +231,7 @@ def impl_exp(case):
 class _Suspend:
     """awaitable that hands control back to whoever drives the coroutine (the schedule of the case), like `asyncio.sleep` on a real loop"""
     def __await__(self):
+        _count_sleep()
         yield "sleep"
 
 
@@ -225,6 +244,7 @@ class SchedAsyncio:
 def impl_sched(case):
     """several `wait_for_results()` coroutines on ONE submitted experiment, resumed in the order the case prescribes and interleaved with
     plain `query_status()` / `results()` calls; after every action: what the action produced, the status, the number of requests so far"""
+    _sleeps.update(n=0, limit=2 * len(case["outcomes"]) + 50)
     qib, nw, wexp = _ctx["qib"], _ctx["networking"], _ctx["wexp"]
     tr = Transport([tuple(o) if isinstance(o, list) else o for o in case["outcomes"]])
     old = (nw.requests, wexp.time, wexp.asyncio)
@@ -383,6 +403,8 @@ def oracle(case, o):
                         done_payload = x[2]
             if last is not None and r["status"] != DOC.get(last[1], "ERROR"):
                 bad.append(("C17:status-map", f"schedule: reply {last[1]!r} -> {r['status']}, documented {DOC.get(last[1], 'ERROR')}"))
+            if r["out"] == ["raised", "Runaway"]:
+                bad.append(("C17:poll-loop-never-returns", f"schedule: {a} with status {status}: the polling loop keeps sleeping although no reply is outstanding"))
             if isinstance(r["out"], list) and r["out"][0] == "res":
                 if r["status"] not in TERMINAL:
                     bad.append(("C17:results-returned-before-terminal", f"schedule: {a} returned with status {r['status']}"))
@@ -447,6 +469,8 @@ def oracle(case, o):
                 bad.append((key, f"{c} returned {r['out'][1]} with final status {r['status']} (server results: {want})"))
         if r["out"] == ["raised", "ValueError"]:
             bad.append(("C17:submitted-experiment-refused", f"{c} raised ValueError on a submitted experiment"))
+        if r["out"] == ["raised", "Runaway"]:
+            bad.append(("C17:poll-loop-never-returns", f"{c} with status {status}: the polling loop keeps sleeping although no reply is outstanding (it never returns)"))
         status, req = r["status"], r["requests"]
     return bad
 
